@@ -47,8 +47,8 @@ INFO = {
         'the harness recorder is emptied after every event so that it does not keep User objects alive',
         'the pre-run heap is parked with gc.freeze() for the duration of a run, so the explicit gc steps traverse '
         'only objects created by the run (a full collection costs ~25 ms, twice the run)',
-        'a chat/ticker/membership notification from a sender that is not blocked for its kind must produce its '
-        'event (a missing event is reported as C19.event_identity what=no_event); duplicates are not judged',
+        'only the content of emitted chat/ticker/membership events is judged (room, user); a missing event is '
+        'counted as a probe, not reported; duplicates are not judged',
         'block kinds: RoomChatMessage and PublicChatMessage <-> ROOM_MESSAGES, PrivateChatMessage <-> PRIVATE_MESSAGES',
     ],
 }
@@ -715,14 +715,13 @@ def _run(world: World, plan):
                     if ev['type'] in ('RoomMessageEvent', 'PublicMessageEvent', 'PrivateMessageEvent'):
                         world.violate('C19.blocked_event', kind=kind, flag=flag, event=ev['type'])
                 return
-        for ev in events:
-            if ev['type'] != want:
-                world.violate('C19.event_identity', what='unannounced_event', event=ev['type'], **base)
+        # the statement constrains what an emitted event carries; whether an event is emitted at all,
+        # or accompanied by events of other types, is not part of it
         if want is None:
             return
         mine = [ev for ev in events if ev['type'] == want]
         if not mine:
-            world.violate('C19.event_identity', what='no_event', event=want, **base)
+            world.probe('notification_without_its_event')
             return
         for ev in mine:
             if 'room' in note and ev['room'] != note['room']:
